@@ -8,6 +8,27 @@ for sel, un in (("H_DECODE", 3), ("H_ENCODE_S", 3), ("H_ENCODE_I", 3), ("H_IDENT
                        include_env=(), functions=_fn,
                        bounds="all 256 codes / all 2^16 shorts / all 2^32 ints symbolic; count 1 (3 in H_STRIDE)"))
 
+# H4: ADPCM block decoders vs independent reference decoders, every block byte symbolic
+_ADPCM = [  # (selector, file, channels, block bytes, samples per block, tiers, timeout, predictor number on the grid or None)
+    ("SEL_IMA_WAV", "ima_adpcm.c", 1, 8, 9, ("quick", "thorough"), 600, None),
+    ("SEL_IMA_WAV", "ima_adpcm.c", 2, 16, 9, ("thorough",), 3000, None),
+    ("SEL_IMA_WAV", "ima_adpcm.c", 1, 12, 17, ("thorough",), 3000, None),
+]
+for bp in (0, 1, 2, 3, 4, 5, 6, 7, 200):   # MS ADPCM: valid predictor numbers 0..6, invalid 7 and 200
+    _ADPCM.append(("SEL_MS", "ms_adpcm.c", 1, 9, 6, ("quick", "thorough") if bp in (1, 5, 200) else ("thorough",), 900, bp))
+_ADPCM.append(("SEL_MS", "ms_adpcm.c", 2, 16, 4, ("thorough",), 3000, 3))
+for sel, cfile, ch, bs, spb, tiers, to, bp in _ADPCM:
+    d = {sel: 1, "CODEC_FILE": '"%s"' % cfile, "CH": ch, "BLOCKSIZE": bs, "SPB": spb, "MF_CAP": bs + 2, "MF_MAXIO": bs + 2}
+    if bp is not None:
+        d["BPRED"] = bp
+    HARNESSES.append(H("adpcm.%s.ch%d.b%d%s" % (sel[4:].lower(), ch, bs, "" if bp is None else ".bpred%d" % bp), "C20/adpcm.c", link=["common"],
+                       stubs=["psf_log_printf", "psf_memset"], defines=d,
+                       unwind=max(spb * ch, bs) + 3, unwindset=["psf_fread.0:%d" % (bs + 3), "psf_memset.0:65"], checks="mem", solver="kissat", witness="twin",
+                       include_env=("log_stub", "memfile", "memset_model"), timeout=to, tiers=tiers,
+                       functions=["wavlike_ima_decode_block" if "IMA" in sel else "msadpcm_decode_block", "msadpcm_get_bpred", "clamp_ima_step_index"],
+                       bounds="%d channel(s), one block of %d bytes = %d samples per channel, every byte symbolic (incl. invalid header fields)%s" % (
+                           ch, bs, spb, "" if bp is None else "; predictor number %d" % bp)))
+
 META = {
     "assumptions": [],
     "outside": [],
